@@ -656,6 +656,7 @@ func (c *Ctx) decoderFacts(tf *typeFacts) {
 		// several branches (secs += k1 / secs -= k2) is followed along every branch
 		delegated := false
 		var bases []ssa.Value
+		bind := map[*ssa.Parameter]ssa.Value{}
 		var walk func(v ssa.Value, depth int)
 		walk = func(v ssa.Value, depth int) {
 			if depth > 12 {
@@ -687,6 +688,22 @@ func (c *Ctx) decoderFacts(tf *typeFacts) {
 					// delegation to another decoder
 					tf.DecEndian = "delegate:" + g.Name()
 					delegated = true
+					return
+				}
+				// an arithmetic helper of the package applied to the value read (ntpToUnix(secs)): every value it
+				// returns, with its parameter standing for the argument
+				if g := flow.StaticCallee(y); g != nil && g.Blocks != nil && g.Pkg != nil && g.Pkg.Pkg.Path() == pkgDatatype && len(g.Params) == 1 && len(y.Call.Args) == 1 && len(flow.Loops(g)) == 0 && depth < 8 {
+					if _, isBasic := g.Params[0].Type().Underlying().(*types.Basic); isBasic {
+						bind[g.Params[0]] = y.Call.Args[0]
+						for _, hv := range flow.ReturnValues(g, 0) {
+							walk(hv, depth+1)
+						}
+						return
+					}
+				}
+			case *ssa.Parameter:
+				if a, ok := bind[y]; ok {
+					walk(a, depth+1)
 					return
 				}
 			case *ssa.Extract:
